@@ -335,4 +335,196 @@ theorem startTok_refines (cfg : Cfg) (s1 : St) (hf : s1.fault = none) (hs : Sync
       rw [e1, e2, e3]
     rw [hts, e1, handleStartTag_flags hw _ _ _ hh]
 
+/-! ### the three kinds of events -/
+
+/-- the start-tag event package scope sees: lower-cased name, a stack directive with the VM's
+`with_content`, the self-closing flag, the VM's match set -/
+def scopeEvStart (vm : SelVM.Vm) (t : Sel.StartTag) (ms : List SelVM.MatchInfo) : Controller.Event :=
+  .startTag (asciiLowerBytes t.name)
+    (if Spec.Css.staysOpen t vm.enableEsiTags then .push else .popImmediately) t.selfClosing (ms.map (·.matchId))
+
+theorem afterStart_sync (s : St) (vm vm' : SelVM.Vm) (d : Dispatcher) (hv : s.vm = some vm) (hs : Sync s)
+    (t : Sel.StartTag) (ms : List SelVM.MatchInfo) (h : vm.handleStartTag t = .ok (vm', ms)) :
+    Sync (afterStart s vm vm' d) := by
+  obtain ⟨item, _, _, hitems⟩ := handleStartTag_closed h
+  have hl : s.descs.length = vm.stack.items.length := by simpa [Sync, hv] using hs
+  simp only [Sync, afterStart]
+  rw [hitems]
+  split
+  · simp [incLast_length, hl]
+  · simp [incLast_length, hl]
+
+/-- **start-tag event** (a VM exists): simulated by `Controller.step` at ordinal `s.ord + 1`. -/
+theorem start_refines (cfg : Cfg) (s : St) (vm : SelVM.Vm) (hf : s.fault = none) (hv : s.vm = some vm)
+    (hs : Sync s) (hw : DispWf s.disp) (name : LocalName) (ns : Model.Ns) (info : AuxInfo)
+    (aux : SelVM.AuxStartTagInfo) (ha : auxConv info = some aux)
+    (nm : Bytes) (attrs : List (Bytes × Bytes × AttrOutline)) (ns' : Model.Ns) (sc : Bool) (raw : Bytes)
+    (src : Range) (base : Nat)
+    (hok : (ctlStep cfg s (.start name ns info (.startTag nm attrs ns' sc raw src base))).2 = none) :
+    ∃ vm' ms d script invs, vm.handleStartTag (selTag name ns aux) = .ok (vm', ms) ∧
+      startMatchingInfos s.disp ms = .ok d ∧
+      Controller.step script (scopeState s) (s.ord + 1) (scopeEvStart vm (selTag name ns aux) ms) =
+        .ok (scopeState (ctlStep cfg s (.start name ns info (.startTag nm attrs ns' sc raw src base))).1, invs) := by
+  have spec := startPhase_spec s vm hf hv name ns info aux ha
+  simp only [ctlStep] at hok ⊢
+  cases hh : vm.handleStartTag (selTag name ns aux) with
+  | error p =>
+    rw [hh] at spec
+    simp only at spec
+    simp [spec] at hok
+  | ok r =>
+    obtain ⟨vm', ms⟩ := r
+    rw [hh] at spec
+    simp only at spec
+    cases hm : startMatchingInfos s.disp ms with
+    | error p =>
+      rw [hm] at spec
+      simp only at spec
+      simp [spec] at hok
+    | ok d =>
+      rw [hm] at spec
+      simp only at spec
+      simp only [spec] at hok ⊢
+      have hs1 : Sync (afterStart s vm vm' d) := afterStart_sync s vm vm' d hv hs _ _ hh
+      have hw1 : DispWf (afterStart s vm vm' d).disp := (startMatchingInfos_good ms hm hw).1
+      have hf1 : (afterStart s vm vm' d).fault = none := hf
+      have hflags : (convFlags d.getTokenCaptureFlags).nextStartTag = (afterStart s vm vm' d).flags.nextStartTag := rfl
+      rw [hflags] at hok ⊢
+      obtain ⟨invs, hinv⟩ := startTok_refines cfg (afterStart s vm vm' d) hf1 hs1 hw1 nm attrs ns' sc raw src base hok
+      refine ⟨vm', ms, d, scriptOf cfg (afterStart s vm vm' d), invs, rfl, hm, ?_⟩
+      obtain ⟨matched, hms, heq⟩ := toScope_handleStartTag s vm vm' hv hs (selTag name ns aux) ms hh (s.ord + 1)
+      have hmatched : ms.map (·.matchId) = matched := by rw [hms]; simp [Function.comp_def]
+      unfold Controller.step scopeEvStart
+      simp only [scopeState, hmatched]
+      rw [heq, hm]
+      simp only [Except.map]
+      exact hinv
+
+/-- **start-tag event** (no selectors, no VM) -/
+theorem start_refines_novm (cfg : Cfg) (s : St) (hf : s.fault = none) (hv : s.vm = none)
+    (hs : Sync s) (hw : DispWf s.disp) (name : LocalName) (ns : Model.Ns) (info : AuxInfo)
+    (nm : Bytes) (attrs : List (Bytes × Bytes × AttrOutline)) (ns' : Model.Ns) (sc : Bool) (raw : Bytes)
+    (src : Range) (base : Nat) (ev : Controller.Event)
+    (hev : ∃ n dir c m, ev = .startTag n dir c m)
+    (hok : (ctlStep cfg s (.start name ns info (.startTag nm attrs ns' sc raw src base))).2 = none) :
+    ∃ script invs, Controller.step script (scopeState s) (s.ord + 1) ev =
+        .ok (scopeState (ctlStep cfg s (.start name ns info (.startTag nm attrs ns' sc raw src base))).1, invs) := by
+  obtain ⟨n, dir, c, m, rfl⟩ := hev
+  simp only [ctlStep] at hok ⊢
+  rw [startPhase_novm s hf hv] at hok ⊢
+  simp only at hok ⊢
+  have hs1 : Sync { s with ord := s.ord + 1 } := by unfold Sync at *; exact hs
+  have hflags : s.flags.nextStartTag = ({ s with ord := s.ord + 1 } : St).flags.nextStartTag := rfl
+  rw [hflags] at hok ⊢
+  obtain ⟨invs, hinv⟩ := startTok_refines cfg { s with ord := s.ord + 1 } hf hs1 hw nm attrs ns' sc raw src base hok
+  refine ⟨scriptOf cfg { s with ord := s.ord + 1 }, invs, ?_⟩
+  simp only [Controller.step]
+  have hh : (scopeState s).ctrl.handleStartTag (s.ord + 1) n dir c m = .ok (toScope { s with ord := s.ord + 1 }) := by
+    simp [scopeState, toScope, Controller.Controller.handleStartTag, hv]
+  rw [hh]
+  exact hinv
+
+/-- **end-tag event** -/
+theorem end_refines (cfg : Cfg) (s : St) (hf : s.fault = none) (hs : Sync s) (hw : DispWf s.disp)
+    (hpre : ∀ vm, s.vm = some vm → PreOk vm.stack) (name : LocalName) (nm raw : Bytes) (src : Range) (ord : Nat)
+    (hok : (ctlStep cfg s (.end_ name (.endTag nm raw src))).2 = none)
+    (hnf : (ctlStep cfg s (.end_ name (.endTag nm raw src))).1.fault = none) :
+    ∃ script invs, Controller.step script (scopeState s) ord (.endTag (asciiLowerBytes (nameBytes name))) =
+        .ok (scopeState (ctlStep cfg s (.end_ name (.endTag nm raw src))).1, invs) := by
+  refine ⟨fun _ _ => ⟨0, false, false⟩, ?_⟩
+  simp only [ctlStep] at hok hnf ⊢
+  -- the controller part
+  have hctl : ∃ s1, endTag s name = (s1, s1.flags) ∧ s1.fault = none ∧ DispWf s1.disp ∧
+      (scopeState s).ctrl.handleEndTag (asciiLowerBytes (nameBytes name)) = .ok (toScope s1) := by
+    have hfault_frame : ∀ (b : Bool) (s1 : St) (t : Model.Token), s1.fault ≠ none → (tokIf cfg b s1 t).1.fault ≠ none := by
+      intro b s1 t h1
+      unfold tokIf
+      split
+      · unfold token
+        cases hfa : s1.fault with
+        | none => exact absurd hfa h1
+        | some m => simp [hfa]
+      · exact h1
+    unfold endTag at hnf ⊢
+    cases hv : s.vm with
+    | none =>
+      refine ⟨s, by simp [hv], hf, hw, ?_⟩
+      simp [scopeState, toScope, Controller.Controller.handleEndTag, hv]
+    | some vm =>
+      simp only [hv] at hnf ⊢
+      cases he : vm.execForEndTag (nameBytes name) with
+      | error p =>
+        simp only [he] at hnf
+        exact absurd hnf (hfault_frame _ _ _ (by simp))
+      | ok r =>
+        obtain ⟨vm', popped⟩ := r
+        simp only [he] at hnf ⊢
+        obtain ⟨hle, heq⟩ := toScope_handleEndTag s vm vm' hv hs (hpre vm hv) (nameBytes name) popped he
+        simp only [hle, if_true] at hnf ⊢
+        cases hsm : stopMatchingPopped s.disp popped (s.descs.drop (s.descs.length - popped.length)) with
+        | error p =>
+          simp only [hsm] at hnf
+          exact absurd hnf (hfault_frame _ _ _ (by simp))
+        | ok d =>
+          simp only [hsm]
+          refine ⟨_, rfl, hf, (stopMatchingPopped_good _ _ hsm hw).1, ?_⟩
+          show (toScope s).handleEndTag _ = _
+          rw [heq, hsm]
+          rfl
+  obtain ⟨s1, he1, hf1, hw1, hsc⟩ := hctl
+  rw [he1] at hok hnf ⊢
+  simp only at hok hnf ⊢
+  simp only [Controller.step]
+  rw [hsc]
+  simp only
+  have hbit : s1.flags.nextEndTag = (toScope s1).disp.getTokenCaptureFlags.nextEndTag := rfl
+  rw [← hbit]
+  unfold tokIf at hok ⊢
+  cases hb : s1.flags.nextEndTag with
+  | false => exact ⟨[], by simp [scopeState, toScope]⟩
+  | true =>
+    simp only [hb, if_true] at hok ⊢
+    have htok : token cfg s1 (.endTag nm raw src) = tokEndTag s1 nm raw src := by
+      unfold token; simp [hf1]
+    rw [htok] at hok ⊢
+    obtain ⟨et, hs', het, e1, e2, e3, _, _⟩ := tokEndTag_ok s1 nm raw src hok
+    unfold Dispatcher.handleEndTagToken
+    have hdisp : (toScope s1).disp = s1.disp := rfl
+    rw [hdisp, het]
+    refine ⟨hs'.flatMap fun h => h.subs.map fun (p : HId × Nat) => Invocation.endTag p.1 p.2 h.ord ord, ?_⟩
+    simp only
+    congr 1
+    unfold scopeState
+    have hts : toScope (tokEndTag s1 nm raw src).1 = { toScope s1 with disp := { s1.disp with endTag := et } } := by
+      unfold toScope; rw [e1, e2, e3]
+    rw [hts, e1]
+    congr 1
+    simp [Dispatcher.getTokenCaptureFlags, removeTail_inactive het]
+
+/-- the scope event of a text / comment / doctype token -/
+def scopeEvOther : Model.Token → Controller.Event
+  | .comment .. => .comment
+  | .doctype .. => .doctype
+  | _ => .text
+
+/-- **text / comment / doctype event** -/
+theorem other_refines (cfg : Cfg) (s : St) (hf : s.fault = none) (tok : Model.Token)
+    (hk : (CtlEv.other tok).WellKinded) (script : ElemScript) (ord : Nat) :
+    ∃ invs, Controller.step script (scopeState s) ord (scopeEvOther tok) =
+        .ok (scopeState (ctlStep cfg s (.other tok)).1, invs) := by
+  have hst : scopeState (ctlStep cfg s (.other tok)).1 = scopeState s := by
+    simp only [ctlStep]
+    unfold tokIf
+    split
+    · obtain ⟨a, b, c, _, _⟩ := tokOther_frame cfg s tok hk hf
+      exact scopeState_congr a b c
+    · rfl
+  rw [hst]
+  cases tok with
+  | startTag => simp [CtlEv.WellKinded] at hk
+  | endTag => simp [CtlEv.WellKinded] at hk
+  | comment => exact ⟨_, rfl⟩
+  | doctype => exact ⟨_, rfl⟩
+  | text => exact ⟨_, rfl⟩
+
 end LolHtml.Model.Full
